@@ -8,9 +8,10 @@ Open Scope R_scope.
    model/GPLin.v are instantiated here for the proofs. *)
 Definition NumR : Num := mkNum R 0 1 Rplus Rminus Rmult Rdiv sqrt exp ln Rabs Rmax PI.
 
-Ltac tR := change (T NumR) with R in *.
+Ltac tR := unfold mat, vec in *; change (T NumR) with R in *.
 (* [ring]/[field] want atoms whose type is syntactically R *)
 Ltac gdots :=
+  tR;
   repeat match goal with
          | |- context [dot NumR ?a ?b] => generalize (dot NumR a b); intro
          end; tR.
@@ -83,13 +84,13 @@ Proof. reflexivity. Qed.
 Lemma dot_comm (a : rvec) : forall b, dotR a b = dotR b a.
 Proof.
   induction a as [|x a IH]; intros [|y b]; try reflexivity.
-  rewrite !dot_cons, IH. gdots; lra.
+  rewrite !dot_cons, IH. gdots; ring.
 Qed.
 
 Lemma dot_zeros_l (z : rvec) : Forall (fun t => t = 0) z -> forall v, dotR z v = 0.
 Proof.
   induction 1 as [|t z Ht _ IH]; intros [|y v]; try reflexivity.
-  rewrite dot_cons, IH, Ht. gdots; lra.
+  rewrite dot_cons, IH, Ht. gdots; ring.
 Qed.
 
 (* dot against a concatenation: the part of [row] beyond [length xs] meets [zs] *)
@@ -97,18 +98,18 @@ Lemma dot_app_r (xs : rvec) : forall row zs,
   dotR row (xs ++ zs) = dotR row xs + dotR (skipn (length xs) row) zs.
 Proof.
   induction xs as [|x xs IH]; intros row zs; simpl.
-  - rewrite dot_nil_r. gdots; lra.
+  - rewrite dot_nil_r. gdots; ring.
   - destruct row as [|r row]; simpl.
     + change (dotR [] zs) with 0. lra.
-    + rewrite IH. gdots; lra.
+    + rewrite IH. gdots; ring.
 Qed.
 
 Lemma dot_app_app (a : rvec) : forall b c d, length a = length b ->
   dotR (a ++ c) (b ++ d) = dotR a b + dotR c d.
 Proof.
   induction a as [|x a IH]; intros [|y b] c d Hl; simpl in *; try discriminate.
-  - gdots; lra.
-  - rewrite IH by lia. gdots; lra.
+  - gdots; ring.
+  - rewrite IH by lia. gdots; ring.
 Qed.
 
 Lemma skipn_nth_cons (row : rvec) : forall k, (k < length row)%nat ->
@@ -129,21 +130,21 @@ Lemma dot_row_split (row xs : rvec) y ys :
   nth (length xs) row 0 <> 0 -> Forall (fun z => z = 0) (skipn (S (length xs)) row) ->
   dotR row (xs ++ y :: ys) = dotR row xs + nth (length xs) row 0 * y.
 Proof.
-  intros Hd Hz. rewrite dot_app_r.
+  intros Hd Hz. rewrite dot_app_r. tR.
   rewrite (skipn_nth_cons row (length xs)) by (apply nth_nonzero_lt; exact Hd).
-  rewrite dot_cons, (dot_zeros_l _ Hz). gdots; lra.
+  rewrite dot_cons, (dot_zeros_l _ Hz). gdots; ring.
 Qed.
 
 (* ---- forward substitution --------------------------------------------------- *)
-Lemma fsubst_aux_cons row L bi b xs :
+Lemma fsubst_aux_cons (row : rvec) (L : rmat) (bi : R) (b xs : rvec) :
   fsubst_aux NumR (row :: L) (bi :: b) xs =
   fsubst_aux NumR L b (xs ++ [(bi - dotR row xs) / nth (length xs) row 0]).
 Proof. reflexivity. Qed.
 
 (* right inverse: L (fsubst L b) = b *)
-Lemma fsubst_aux_solves L : forall b xs,
+Lemma fsubst_aux_solves (L : rmat) : forall (b xs : rvec),
   lt_from (length xs) L -> length b = length L ->
-  exists ys, fsubst_aux NumR L b xs = xs ++ ys /\ length ys = length L /\
+  exists ys : rvec, fsubst_aux NumR L b xs = xs ++ ys /\ length ys = length L /\
              mvR L (xs ++ ys) = b.
 Proof.
   induction L as [|row L IH]; intros b xs Hlt Hlen.
@@ -152,34 +153,34 @@ Proof.
     destruct Hlt as [Hd [Hz Hr]].
     set (xi := (bi - dotR row xs) / nth (length xs) row 0).
     destruct (IH b (xs ++ [xi])) as [ys [He [Hly Hmv]]].
-    + rewrite app_length. simpl. replace (length xs + 1)%nat with (S (length xs)) by lia. exact Hr.
+    + rewrite app_length. simpl. rewrite Nat.add_1_r. exact Hr.
     + exact Hlen.
     + exists (xi :: ys). rewrite fsubst_aux_cons. fold xi. rewrite He, <- app_assoc. simpl.
       split; [reflexivity|]. split; [lia|].
-      rewrite <- app_assoc in Hmv. simpl in Hmv. unfold mv in *. simpl. rewrite Hmv. f_equal.
+      rewrite <- app_assoc in Hmv. simpl in Hmv. unfold mv in *. simpl. f_equal; [|exact Hmv].
       rewrite dot_row_split by assumption. unfold xi. gdots. field. exact Hd.
 Qed.
 
-Lemma fsubst_solves_rec L b : lt_from 0 L -> length b = length L ->
+Lemma fsubst_solves_rec (L : rmat) (b : rvec) : lt_from 0 L -> length b = length L ->
   mvR L (fsubstR L b) = b /\ length (fsubstR L b) = length L.
 Proof.
   intros Hlt Hlen. destruct (fsubst_aux_solves L b [] Hlt Hlen) as [ys [He [Hl Hm]]].
-  unfold forward_subst. rewrite He. simpl in *. auto.
+  unfold forward_subst. tR. rewrite He. simpl in *. auto.
 Qed.
 
-Lemma fsubst_solves L b : LowerTri L -> length b = length L -> mvR L (fsubstR L b) = b.
+Lemma fsubst_solves (L : rmat) (b : rvec) : LowerTri L -> length b = length L -> mvR L (fsubstR L b) = b.
 Proof. intros H Hl. apply fsubst_solves_rec; [apply LowerTri_lt_from; exact H | exact Hl]. Qed.
 
-Lemma fsubst_length L b : LowerTri L -> length b = length L -> length (fsubstR L b) = length L.
+Lemma fsubst_length (L : rmat) (b : rvec) : LowerTri L -> length b = length L -> length (fsubstR L b) = length L.
 Proof. intros H Hl. apply fsubst_solves_rec; [apply LowerTri_lt_from; exact H | exact Hl]. Qed.
 
 (* left inverse: fsubst L (L x) = x *)
-Lemma fsubst_aux_left_inv L : forall xs ys,
+Lemma fsubst_aux_left_inv (L : rmat) : forall (xs ys : rvec),
   lt_from (length xs) L -> length ys = length L ->
   fsubst_aux NumR L (mvR L (xs ++ ys)) xs = xs ++ ys.
 Proof.
   induction L as [|row L IH]; intros xs ys Hlt Hlen.
-  - destruct ys; [|discriminate]. reflexivity.
+  - destruct ys; [|discriminate]. simpl. rewrite app_nil_r. reflexivity.
   - destruct ys as [|y ys]; [discriminate|]. simpl in Hlen. injection Hlen as Hlen.
     destruct Hlt as [Hd [Hz Hr]].
     unfold mv. simpl map. rewrite fsubst_aux_cons.
@@ -188,12 +189,704 @@ Proof.
       by (gdots; field; exact Hd).
     replace (xs ++ y :: ys) with ((xs ++ [y]) ++ ys) by (rewrite <- app_assoc; reflexivity).
     apply (IH (xs ++ [y]) ys).
-    + rewrite app_length. simpl. replace (length xs + 1)%nat with (S (length xs)) by lia. exact Hr.
+    + rewrite app_length. simpl. rewrite Nat.add_1_r. exact Hr.
     + exact Hlen.
 Qed.
 
-Lemma fsubst_left_inv L x : LowerTri L -> length x = length L -> fsubstR L (mvR L x) = x.
+Lemma fsubst_left_inv (L : rmat) (x : rvec) : LowerTri L -> length x = length L -> fsubstR L (mvR L x) = x.
 Proof.
   intros H Hl. apply LowerTri_lt_from in H.
   exact (fsubst_aux_left_inv L [] x H Hl).
+Qed.
+
+(* ---- L^T a, adjointness, gram --------------------------------------------- *)
+(* vectors read "missing entry = 0": [vaddx] keeps the longer tail *)
+Fixpoint vaddx (a b : rvec) : rvec :=
+  match a, b with
+  | x :: a', y :: b' => (x + y) :: vaddx a' b'
+  | [], _ => b
+  | _, [] => a
+  end.
+Definition vscale (c : R) (a : rvec) : rvec := map (fun x => c * x) a.
+(* L^T a = sum_i a_i * row_i *)
+Fixpoint tmv (M : rmat) (a : rvec) : rvec :=
+  match M, a with
+  | row :: M', ai :: a' => vaddx (vscale ai row) (tmv M' a')
+  | _, _ => []
+  end.
+
+Lemma dot_vaddx_r (v : rvec) : forall x y, dotR v (vaddx x y) = dotR v x + dotR v y.
+Proof.
+  induction v as [|a v IH]; intros x y.
+  - simpl. lra.
+  - destruct x as [|b x]; destruct y as [|c y]; simpl.
+    + lra.
+    + lra.
+    + lra.
+    + rewrite IH. gdots; ring.
+Qed.
+
+Lemma dot_vscale_r (v : rvec) : forall c x, dotR v (vscale c x) = c * dotR v x.
+Proof.
+  induction v as [|a v IH]; intros c [|b x]; simpl; try lra.
+  rewrite IH. gdots; ring.
+Qed.
+
+Lemma dot_adjoint (M : rmat) : forall (v a : rvec), dotR (mvR M v) a = dotR v (tmv M a).
+Proof.
+  induction M as [|row M IH]; intros v a.
+  - simpl. rewrite dot_nil_r. reflexivity.
+  - destruct a as [|ai a].
+    + simpl. rewrite !dot_nil_r. reflexivity.
+    + unfold mv in *. simpl. rewrite dot_vaddx_r, dot_vscale_r, IH, (dot_comm row v). gdots; ring.
+Qed.
+
+Lemma mv_gram (L : rmat) (a : rvec) : mvR (gramR L) a = mvR L (tmv L a).
+Proof.
+  unfold gram, mv. rewrite map_map. apply map_ext. intros ri.
+  rewrite <- dot_adjoint. unfold mv. f_equal. apply map_ext. intros rj. apply dot_comm.
+Qed.
+
+Lemma vaddx_length (a : rvec) : forall b, length (vaddx a b) = Nat.max (length a) (length b).
+Proof.
+  induction a as [|x a IH]; intros [|y b]; simpl; try reflexivity. rewrite IH. reflexivity.
+Qed.
+
+Lemma tmv_length (L : rmat) : forall (a : rvec) n,
+  Forall (fun r => length r = n) L -> length a = length L -> (0 < length L)%nat -> length (tmv L a) = n.
+Proof.
+  induction L as [|row L IH]; intros a n Hsq Hl Hpos.
+  - simpl in Hpos. lia.
+  - destruct a as [|ai a]; [discriminate|]. simpl in Hl. injection Hl as Hl.
+    inversion Hsq as [|? ? Hrow Hrest]; subst.
+    simpl. rewrite vaddx_length. unfold vscale. rewrite map_length.
+    destruct L as [|row2 L].
+    + destruct a; [|discriminate]. simpl. lia.
+    + rewrite (IH a (length row) Hrest Hl) by (simpl; lia). lia.
+Qed.
+
+(* the core identity: with L L^T = A, L p = r, A alpha = r, L v = k :  <v,p> = <k,alpha> *)
+Lemma solve_dot_dense (L : rmat) (p r k alpha : rvec) :
+  LowerTri L -> Square L ->
+  length k = length L -> length p = length L -> length alpha = length L ->
+  mvR L p = r -> mvR (gramR L) alpha = r ->
+  dotR (fsubstR L k) p = dotR k alpha.
+Proof.
+  intros Hlt Hsq Hk Hp Ha HLp HAa.
+  destruct L as [|row0 L0] eqn:EL.
+  - destruct k; [|discriminate]. destruct alpha; [|discriminate]. reflexivity.
+  - rewrite <- EL in *.
+    assert (Hpos : (0 < length L)%nat) by (rewrite EL; simpl; lia).
+    assert (Hq : p = tmv L alpha).
+    { rewrite <- (fsubst_left_inv L p Hlt Hp).
+      rewrite HLp, <- HAa, mv_gram.
+      apply fsubst_left_inv; [exact Hlt|].
+      apply tmv_length; [exact Hsq | exact Ha | exact Hpos]. }
+    rewrite Hq, <- dot_adjoint, fsubst_solves by assumption. reflexivity.
+Qed.
+
+Lemma pred_is_tmv (L : rmat) (p r alpha : rvec) :
+  LowerTri L -> Square L -> (0 < length L)%nat ->
+  length p = length L -> length alpha = length L ->
+  mvR L p = r -> mvR (gramR L) alpha = r -> p = tmv L alpha.
+Proof.
+  intros Hlt Hsq Hpos Hp Ha HLp HAa.
+  rewrite <- (fsubst_left_inv L p Hlt Hp).
+  rewrite HLp, <- HAa, mv_gram.
+  apply fsubst_left_inv; [exact Hlt|].
+  apply tmv_length; [exact Hsq | exact Ha | exact Hpos].
+Qed.
+
+(* ---- generic list facts ------------------------------------------------------ *)
+Lemma map2_length {A B C} (f : A -> B -> C) (a : list A) : forall b,
+  length (map2 f a b) = Nat.min (length a) (length b).
+Proof. induction a as [|x a IH]; intros [|y b]; simpl; try reflexivity. rewrite IH. reflexivity. Qed.
+
+Lemma map2_nth {A B C} (f : A -> B -> C) (a : list A) : forall b t da db dc,
+  (t < length a)%nat -> (t < length b)%nat ->
+  nth t (map2 f a b) dc = f (nth t a da) (nth t b db).
+Proof.
+  induction a as [|x a IH]; intros [|y b] t da db dc Ha Hb; simpl in *; try lia.
+  destruct t as [|t]; [reflexivity|]. apply IH; lia.
+Qed.
+
+Lemma map_nth_lt {A B} (f : A -> B) (l : list A) t da db :
+  (t < length l)%nat -> nth t (map f l) db = f (nth t l da).
+Proof.
+  intros Hl. rewrite (nth_indep _ db (f da)) by (rewrite map_length; exact Hl). apply map_nth.
+Qed.
+
+Lemma map2_map_map {A B C D} (f : B -> C -> D) (g : A -> B) (h : A -> C) (l : list A) :
+  map2 f (map g l) (map h l) = map (fun x => f (g x) (h x)) l.
+Proof. induction l as [|x l IH]; simpl; [reflexivity|]. rewrite IH. reflexivity. Qed.
+
+(* ---- predictive mean, variance, covariance = dense expressions ---------------- *)
+Definition mean_entry (means : list rvec) (t j : nat) : R := nth j (nth t means []) 0.
+
+Lemma predict_means_entry (L : rmat) (Pcols kcols : list rvec) (mstar : rvec) t j :
+  (t < length kcols)%nat -> (t < length mstar)%nat -> (j < length Pcols)%nat ->
+  mean_entry (predict_means NumR L Pcols kcols mstar) t j =
+  dotR (fsubstR L (nth t kcols [])) (nth j Pcols []) + nth t mstar 0.
+Proof.
+  intros Ht Hm Hj. unfold mean_entry, predict_means. tR.
+  rewrite (map2_nth _ kcols mstar t [] 0 []) by assumption.
+  rewrite (map_nth_lt _ Pcols j [] 0) by assumption. reflexivity.
+Qed.
+
+Lemma raw_variances_entry (L : rmat) (kcols : list rvec) (kdiag : rvec) t :
+  (t < length kcols)%nat -> (t < length kdiag)%nat ->
+  nth t (raw_variances NumR L kcols kdiag) 0 =
+  nth t kdiag 0 - dotR (fsubstR L (nth t kcols [])) (fsubstR L (nth t kcols [])).
+Proof.
+  intros Ht Hd. unfold raw_variances. tR.
+  rewrite (map2_nth _ kcols kdiag t [] 0 0) by assumption. reflexivity.
+Qed.
+
+Lemma raw_variances_length (L : rmat) (kcols : list rvec) (kdiag : rvec) :
+  length (raw_variances NumR L kcols kdiag) = Nat.min (length kcols) (length kdiag).
+Proof. unfold raw_variances. apply map2_length. Qed.
+
+Lemma predict_vars_entry (L : rmat) (kcols : list rvec) (kdiag : rvec) (floor : R) t :
+  (t < length kcols)%nat -> (t < length kdiag)%nat ->
+  nth t (predict_vars NumR L kcols kdiag floor) 0 =
+  Rmax (nth t (raw_variances NumR L kcols kdiag) 0) floor.
+Proof.
+  intros Ht Hd. unfold predict_vars. tR.
+  rewrite (map_nth_lt _ _ t 0 0) by (rewrite raw_variances_length; lia). reflexivity.
+Qed.
+
+Lemma dot_self_nonneg (v : rvec) : 0 <= dotR v v.
+Proof.
+  induction v as [|x v IH]; simpl; [lra|].
+  pose proof (Rle_0_sqr x) as Hs. unfold Rsqr in Hs. tR. lra.
+Qed.
+
+(* the posterior state invariant: L lower triangular, L L^T = A, L P_j = (Y - m)_j *)
+Definition StateOK (L A : rmat) (Pcols Rcols : list rvec) : Prop :=
+  LowerTri L /\ Square L /\ gramR L = A /\ length Pcols = length Rcols /\
+  forall j, (j < length Rcols)%nat ->
+    length (nth j Pcols []) = length L /\ mvR L (nth j Pcols []) = nth j Rcols [].
+
+Lemma mean_dense (L A : rmat) (Pcols Rcols kcols : list rvec) (mstar : rvec) :
+  StateOK L A Pcols Rcols ->
+  forall t j (alpha : rvec),
+    (t < length kcols)%nat -> (t < length mstar)%nat -> (j < length Rcols)%nat ->
+    length (nth t kcols []) = length L -> length alpha = length L ->
+    mvR A alpha = nth j Rcols [] ->
+    mean_entry (predict_means NumR L Pcols kcols mstar) t j =
+    nth t mstar 0 + dotR (nth t kcols []) alpha.
+Proof.
+  intros [Hlt [Hsq [HA [HlP HP]]]] t j alpha Ht Hm Hj Hk Ha Hal.
+  rewrite predict_means_entry by (try assumption; lia).
+  destruct (HP j Hj) as [HPl HPm]. subst A.
+  rewrite (solve_dot_dense L (nth j Pcols []) (nth j Rcols []) (nth t kcols []) alpha) by assumption.
+  tR. lra.
+Qed.
+
+Lemma cov_dense (L A : rmat) (ks kt beta : rvec) :
+  LowerTri L -> Square L -> gramR L = A ->
+  length ks = length L -> length kt = length L -> length beta = length L ->
+  mvR A beta = kt ->
+  dotR (fsubstR L ks) (fsubstR L kt) = dotR ks beta.
+Proof.
+  intros Hlt Hsq HA Hs Ht Hb Hbeta. subst A.
+  apply (solve_dot_dense L (fsubstR L kt) kt ks beta); try assumption.
+  - apply fsubst_length; assumption.
+  - apply fsubst_solves; assumption.
+Qed.
+
+Lemma var_dense (L A : rmat) (kcols : list rvec) (kdiag : rvec) (floor : R) :
+  LowerTri L -> Square L -> gramR L = A ->
+  forall t (beta : rvec),
+    (t < length kcols)%nat -> (t < length kdiag)%nat ->
+    length (nth t kcols []) = length L -> length beta = length L ->
+    mvR A beta = nth t kcols [] ->
+    nth t (raw_variances NumR L kcols kdiag) 0 = nth t kdiag 0 - dotR (nth t kcols []) beta /\
+    nth t (predict_vars NumR L kcols kdiag floor) 0 =
+      Rmax (nth t kdiag 0 - dotR (nth t kcols []) beta) floor.
+Proof.
+  intros Hlt Hsq HA t beta Ht Hd Hk Hb Hbeta.
+  assert (E : nth t (raw_variances NumR L kcols kdiag) 0 = nth t kdiag 0 - dotR (nth t kcols []) beta).
+  { rewrite raw_variances_entry by assumption.
+    rewrite (cov_dense L A (nth t kcols []) (nth t kcols []) beta) by assumption. reflexivity. }
+  split; [exact E|]. rewrite predict_vars_entry by assumption. rewrite E. reflexivity.
+Qed.
+
+(* floor <= variance <= prior variance *)
+Lemma var_bounds (L : rmat) (kcols : list rvec) (kdiag : rvec) (floor : R) t :
+  (t < length kcols)%nat -> (t < length kdiag)%nat ->
+  floor <= nth t (predict_vars NumR L kcols kdiag floor) 0 /\
+  (floor <= nth t kdiag 0 -> nth t (predict_vars NumR L kcols kdiag floor) 0 <= nth t kdiag 0).
+Proof.
+  intros Ht Hd. rewrite predict_vars_entry, raw_variances_entry by assumption.
+  pose proof (dot_self_nonneg (fsubstR L (nth t kcols []))) as Hnn.
+  split.
+  - apply Rmax_r.
+  - intros Hf. apply Rmax_lub; [tR; lra | exact Hf].
+Qed.
+
+Lemma posterior_cov_entry (L : rmat) (kcols : list rvec) (Kss : rmat) s t :
+  (s < length kcols)%nat -> (t < length kcols)%nat ->
+  (s < length Kss)%nat -> (t < length (nth s Kss []))%nat ->
+  entry (posterior_cov NumR L kcols Kss) s t =
+  entry Kss s t - dotR (fsubstR L (nth s kcols [])) (fsubstR L (nth t kcols [])).
+Proof.
+  intros Hs Ht HK HKr. unfold entry, posterior_cov. tR.
+  rewrite (map2_nth _ _ Kss s [] [] []) by (try rewrite map_length; assumption).
+  rewrite (map2_nth _ _ (nth s Kss []) t [] 0 0) by (try rewrite map_length; assumption).
+  rewrite !(map_nth_lt _ kcols _ [] []) by assumption. reflexivity.
+Qed.
+
+(* pred_mat as computed by cholesky_computations satisfies L P_j = Y_j - m *)
+Lemma vsub_length (a b : rvec) : length (vsub NumR a b) = Nat.min (length a) (length b).
+Proof. apply map2_length. Qed.
+
+Lemma pred_mat_state (L A : rmat) (Ycols : list rvec) (mvec : rvec) :
+  LowerTri L -> Square L -> gramR L = A -> length mvec = length L ->
+  Forall (fun y => length y = length L) Ycols ->
+  StateOK L A (pred_mat NumR L Ycols mvec) (map (fun y => vsub NumR y mvec) Ycols).
+Proof.
+  intros Hlt Hsq HA Hm HY. unfold StateOK, pred_mat. tR.
+  split; [exact Hlt|]. split; [exact Hsq|]. split; [exact HA|].
+  split; [rewrite !map_length; reflexivity|].
+  intros j Hj. rewrite map_length in Hj.
+  assert (Hlen : length (vsub NumR (nth j Ycols []) mvec) = length L).
+  { rewrite vsub_length. rewrite Forall_forall in HY.
+    rewrite (HY (nth j Ycols [])) by (apply nth_In; exact Hj). rewrite Hm. apply Nat.min_id. }
+  rewrite (map_nth_lt _ Ycols j [] []) by exact Hj.
+  rewrite (map_nth_lt _ Ycols j [] []) by exact Hj.
+  split; [apply fsubst_length | apply fsubst_solves]; assumption.
+Qed.
+
+(* ---- cholesky_update: rank-one extension of the posterior state ---------------- *)
+(* [[A, k], [k^T, d]] *)
+Definition sym_extend (A : rmat) (kvec : rvec) (d : R) : rmat :=
+  map2 (fun r k => r ++ [k]) A kvec ++ [kvec ++ [d]].
+
+Lemma dot_snoc (a b : rvec) x y : length a = length b -> dotR (a ++ [x]) (b ++ [y]) = dotR a b + x * y.
+Proof. intros Hl. rewrite dot_app_app by exact Hl. simpl. gdots; ring. Qed.
+
+Lemma gram_chol_extend (L : rmat) (lvec : rvec) (lscal : R) :
+  Forall (fun r => length r = length lvec) L ->
+  gramR (chol_extend NumR L lvec lscal) =
+  sym_extend (gramR L) (mvR L lvec) (dotR lvec lvec + lscal * lscal).
+Proof.
+  intros Hsq. unfold gram, chol_extend, sym_extend, mv. tR.
+  rewrite !map_app. simpl map at 1. f_equal.
+  - rewrite map_map. rewrite map2_map_map. apply map_ext_in. intros ri Hri.
+    rewrite Forall_forall in Hsq. rewrite map_app, map_map. simpl. f_equal.
+    + apply map_ext_in. intros rj Hrj. rewrite dot_snoc by (rewrite (Hsq ri Hri), (Hsq rj Hrj); reflexivity).
+      gdots; ring.
+    + rewrite dot_snoc by (apply Hsq; exact Hri). gdots. f_equal. ring.
+  - simpl. f_equal. rewrite map_app, map_map. simpl. f_equal.
+    + apply map_ext_in. intros rj Hrj. rewrite Forall_forall in Hsq.
+      rewrite dot_snoc by (symmetry; apply Hsq; exact Hrj). rewrite (dot_comm lvec rj). gdots; ring.
+    + rewrite dot_snoc by reflexivity. reflexivity.
+Qed.
+
+Lemma mv_chol_extend (L : rmat) (lvec pj : rvec) (lscal x : R) :
+  Forall (fun r => length r = length pj) L -> length lvec = length pj ->
+  mvR (chol_extend NumR L lvec lscal) (pj ++ [x]) = mvR L pj ++ [dotR lvec pj + lscal * x].
+Proof.
+  intros Hsq Hl. unfold chol_extend, mv. tR. rewrite map_app, map_map. simpl. f_equal.
+  - apply map_ext_in. intros r Hr. rewrite Forall_forall in Hsq. rewrite dot_snoc by (apply Hsq; exact Hr).
+    gdots; ring.
+  - rewrite dot_snoc by exact Hl. reflexivity.
+Qed.
+
+Lemma lt_from_app (L1 : rmat) : forall k (L2 : rmat),
+  lt_from k (L1 ++ L2) <-> lt_from k L1 /\ lt_from (k + length L1) L2.
+Proof.
+  induction L1 as [|row L1 IH]; intros k L2; simpl.
+  - rewrite Nat.add_0_r. tauto.
+  - rewrite IH. replace (S k + length L1)%nat with (k + S (length L1))%nat by lia. tauto.
+Qed.
+
+Lemma lt_from_snoc0 (L : rmat) : forall k, lt_from k L -> lt_from k (map (fun r => r ++ [0]) L).
+Proof.
+  induction L as [|row L IH]; intros k H; [exact I|].
+  destruct H as [Hd [Hz Hr]]. cbn [map lt_from].
+  pose proof (nth_nonzero_lt row k Hd) as Hk.
+  split; [|split].
+  - rewrite app_nth1 by exact Hk. exact Hd.
+  - rewrite skipn_app. apply Forall_app. split; [exact Hz|].
+    replace (S k - length row)%nat with 0%nat by lia. simpl. constructor; [reflexivity|constructor].
+  - apply IH. exact Hr.
+Qed.
+
+Lemma chol_extend_lower (L : rmat) (lvec : rvec) (lscal : R) :
+  LowerTri L -> length lvec = length L -> lscal <> 0 -> LowerTri (chol_extend NumR L lvec lscal).
+Proof.
+  intros Hlt Hl Hs. apply LowerTri_lt_from. apply LowerTri_lt_from in Hlt.
+  unfold chol_extend. tR. apply lt_from_app. split.
+  - apply lt_from_snoc0. exact Hlt.
+  - rewrite map_length. cbn [lt_from]. rewrite Nat.add_0_l. split; [|split; [|exact I]].
+    + rewrite app_nth2 by lia. rewrite Hl, Nat.sub_diag. exact Hs.
+    + rewrite skipn_all2; [constructor|]. rewrite app_length. simpl. lia.
+Qed.
+
+Lemma chol_extend_square (L : rmat) (lvec : rvec) (lscal : R) :
+  Square L -> length lvec = length L -> Square (chol_extend NumR L lvec lscal).
+Proof.
+  intros Hsq Hl. unfold Square, chol_extend in *. tR.
+  rewrite app_length, map_length. simpl. apply Forall_app. split.
+  - apply Forall_forall. intros r Hr. apply in_map_iff in Hr as [r0 [Hr0 Hin]]. subst r.
+    rewrite Forall_forall in Hsq. rewrite app_length, (Hsq r0 Hin). reflexivity.
+  - constructor; [|constructor]. rewrite app_length, Hl. reflexivity.
+Qed.
+
+Lemma cholesky_update_state (L A : rmat) (Pcols Rcols : list rvec) (kvec target : rvec)
+      (kscal noise mscal clamp2 : R) :
+  StateOK L A Pcols Rcols -> length kvec = length L -> length target = length Pcols -> 0 < clamp2 ->
+  let lvec := fsubstR L kvec in
+  let raw := kscal + noise - dotR lvec lvec in
+  let st := cholesky_update NumR L Pcols kvec kscal noise mscal target clamp2 in
+  StateOK (fst st) (sym_extend A kvec (dotR lvec lvec + Rmax raw clamp2)) (snd st)
+          (map2 (fun r tj => r ++ [tj - mscal]) Rcols target)
+  /\ (clamp2 <= raw -> dotR lvec lvec + Rmax raw clamp2 = kscal + noise).
+Proof.
+  intros [Hlt [Hsq [HA [HlP HP]]]] Hk Ht Hc lvec raw st.
+  assert (Hlv : length lvec = length L) by (apply fsubst_length; assumption).
+  assert (Hmv : mvR L lvec = kvec) by (apply fsubst_solves; assumption).
+  set (lsq := Rmax raw clamp2).
+  assert (Hlsq : 0 < lsq) by (unfold lsq; eapply Rlt_le_trans; [exact Hc | apply Rmax_r]).
+  set (lscal := sqrt lsq).
+  assert (Hls : lscal <> 0) by (unfold lscal; apply Rgt_not_eq; apply sqrt_lt_R0; exact Hlsq).
+  assert (Hss : lscal * lscal = lsq) by (unfold lscal; apply sqrt_sqrt; lra).
+  assert (Hst : st = (chol_extend NumR L lvec lscal,
+                      map2 (fun pj tj => pj ++ [((tj - mscal) - dotR lvec pj) / lscal]) Pcols target))
+    by reflexivity.
+  rewrite Hst. cbn [fst snd].
+  assert (Hrows : forall n, n = length L -> Forall (fun r : rvec => length r = n) L).
+  { intros n ->. exact Hsq. }
+  split.
+  - split; [apply chol_extend_lower; assumption|].
+    split; [apply chol_extend_square; assumption|].
+    split.
+    { rewrite gram_chol_extend by (apply Hrows; exact Hlv).
+      rewrite HA, Hmv, Hss. reflexivity. }
+    split.
+    { rewrite !map2_length. tR. rewrite HlP. reflexivity. }
+    intros j Hj. rewrite map2_length in Hj. tR.
+    assert (Hj1 : (j < length Rcols)%nat) by lia.
+    assert (Hj2 : (j < length target)%nat) by lia.
+    assert (Hj3 : (j < length Pcols)%nat) by lia.
+    destruct (HP j Hj1) as [HPl HPm].
+    rewrite (map2_nth _ Pcols target j [] 0 []) by assumption.
+    rewrite (map2_nth _ Rcols target j [] 0 []) by assumption.
+    split.
+    + rewrite app_length, HPl. unfold chol_extend. rewrite app_length, map_length. reflexivity.
+    + rewrite mv_chol_extend by (try apply Hrows; congruence).
+      rewrite HPm. f_equal. f_equal. gdots. field. exact Hls.
+  - intros Hge. unfold lsq. rewrite Rmax_left by exact Hge. unfold raw. tR. lra.
+Qed.
+
+(* ---- fantasy columns are independent right-hand sides (ANY carrier, floats included) --- *)
+Section Fantasy.
+Variable N : Num.
+
+Lemma map_map2 {A B C D} (g : C -> D) (f : A -> B -> C) (a : list A) : forall b,
+  map g (map2 f a b) = map2 (fun x y => g (f x y)) a b.
+Proof. induction a as [|x a IH]; intros [|y b]; simpl; try reflexivity. rewrite IH. reflexivity. Qed.
+
+Lemma map2_ext {A B C} (f f' : A -> B -> C) (a : list A) : forall b,
+  (forall x y, f x y = f' x y) -> map2 f a b = map2 f' a b.
+Proof. intros b H. revert b. induction a as [|x a IH]; intros [|y b]; simpl; try reflexivity. rewrite H, IH. reflexivity. Qed.
+
+Lemma nth_map_same {A B} (f : A -> B) (l l' : list A) j (da : A) (db : B) :
+  length l = length l' -> nth j l da = nth j l' da -> nth j (map f l) db = nth j (map f l') db.
+Proof.
+  intros Hl Hn. destruct (Nat.lt_ge_cases j (length l)) as [Hj|Hj].
+  - rewrite (map_nth_lt f l j da db Hj), (map_nth_lt f l' j da db) by lia. rewrite Hn. reflexivity.
+  - rewrite !nth_overflow by (rewrite map_length; lia). reflexivity.
+Qed.
+
+Lemma fantasy_means_col (L : mat N) (Y Y' : list (vec N)) (mvec : vec N) (kcols : list (vec N)) (mstar : vec N) j :
+  length Y = length Y' -> nth j Y [] = nth j Y' [] ->
+  map (fun row => nth j row (zero N)) (predict_means N L (pred_mat N L Y mvec) kcols mstar) =
+  map (fun row => nth j row (zero N)) (predict_means N L (pred_mat N L Y' mvec) kcols mstar).
+Proof.
+  intros Hl Hj. unfold predict_means, pred_mat. rewrite !map_map2. apply map2_ext. intros kc ms.
+  rewrite !map_map. apply (nth_map_same _ Y Y' j []); assumption.
+Qed.
+
+Lemma fantasy_vars_none (L : mat N) (Y Y' : list (vec N)) (mvec : vec N) (kcols : list (vec N)) (mstar kdiag : vec N) floor :
+  snd (predict_posterior_marginals N L (pred_mat N L Y mvec) kcols mstar kdiag floor) =
+  snd (predict_posterior_marginals N L (pred_mat N L Y' mvec) kcols mstar kdiag floor).
+Proof. reflexivity. Qed.
+End Fantasy.
+
+(* ---- negative log marginal likelihood ------------------------------------------ *)
+Definition prodR (l : rvec) : R := fold_right Rmult 1 l.
+
+Lemma of_nat_INR n : of_nat NumR n = INR n.
+Proof.
+  induction n as [|n IH]; [reflexivity|]. rewrite S_INR, <- IH. reflexivity.
+Qed.
+
+Lemma prodR_nonzero (l : rvec) : Forall (fun d => d <> 0) l -> prodR l <> 0.
+Proof.
+  induction 1 as [|d l Hd _ IH]; simpl; [lra|].
+  apply Rmult_integral_contrapositive_currified; assumption.
+Qed.
+
+Lemma sum_log_abs (l : rvec) : Forall (fun d => d <> 0) l ->
+  vsum NumR (map (fun d => ln (Rabs d)) l) = ln (Rabs (prodR l)).
+Proof.
+  induction 1 as [|d l Hd Hl IH]; simpl.
+  - rewrite Rabs_R1, ln_1. reflexivity.
+  - pose proof (prodR_nonzero l Hl) as Hp.
+    rewrite Rabs_mult, ln_mult by (apply Rabs_pos_lt; assumption). tR. rewrite IH. reflexivity.
+Qed.
+
+Lemma ln_sq x : x <> 0 -> ln (x * x) = 2 * ln (Rabs x).
+Proof.
+  intros Hx. replace (x * x) with (Rabs x * Rabs x) by (rewrite <- Rabs_mult; apply Rabs_pos_eq; apply Rle_0_sqr).
+  rewrite ln_mult by (apply Rabs_pos_lt; assumption). lra.
+Qed.
+
+Lemma diag_from_nth (L : rmat) : forall k i, (i < length L)%nat ->
+  nth i (diag_from NumR k L) 0 = nth (k + i) (nth i L []) 0.
+Proof.
+  induction L as [|row L IH]; intros k i Hi; simpl in Hi; [lia|].
+  destruct i as [|i]; simpl.
+  - rewrite Nat.add_0_r. reflexivity.
+  - rewrite IH by lia. f_equal. lia.
+Qed.
+
+Lemma diag_from_length (L : rmat) : forall k, length (diag_from NumR k L) = length L.
+Proof. induction L as [|row L IH]; intros k; simpl; [reflexivity|]. rewrite IH. reflexivity. Qed.
+
+Lemma diag_nonzero (L : rmat) : LowerTri L -> Forall (fun d => d <> 0) (diag NumR L).
+Proof.
+  intros H. apply Forall_forall. intros x Hx.
+  destruct (In_nth _ _ 0 Hx) as [i [Hi Hn]]. unfold diag in *. rewrite diag_from_length in Hi.
+  rewrite diag_from_nth in Hn by exact Hi. subst x. apply (H i Hi).
+Qed.
+
+Lemma nlml_dense (L : rmat) (p r alpha : rvec) (detA : R) :
+  LowerTri L -> Square L ->
+  length p = length L -> length alpha = length L ->
+  mvR L p = r -> mvR (gramR L) alpha = r ->
+  detA = prodR (diag NumR L) * prodR (diag NumR L) ->
+  nlml NumR L p = / 2 * (INR (length L) * ln (2 * PI) + ln detA + dotR r alpha).
+Proof.
+  intros Hlt Hsq Hp Ha HLp HAa Hdet.
+  assert (Hquad : dotR p p = dotR r alpha).
+  { destruct L as [|row0 L0] eqn:EL.
+    - destruct p; [|discriminate]. simpl in HLp. subst r. reflexivity.
+    - rewrite <- EL in *.
+      assert (Hpos : (0 < length L)%nat) by (rewrite EL; simpl; lia).
+      rewrite (pred_is_tmv L p r alpha) at 2 by assumption.
+      rewrite <- dot_adjoint, HLp. reflexivity. }
+  pose proof (diag_nonzero L Hlt) as Hnz.
+  pose proof (prodR_nonzero _ Hnz) as Hpz.
+  unfold nlml, sumsq, half, two. tR. cbn [add sub mul div one zero nlog nabs npi NumR].
+  rewrite sum_log_abs by exact Hnz. rewrite of_nat_INR, Hquad, Hp, Hdet.
+  rewrite (ln_sq _ Hpz).
+  replace (1 + 1) with 2 by lra. gdots.
+  generalize (ln (Rabs (prodR (diag NumR L)))). generalize (ln (2 * PI)). intros. field.
+Qed.
+
+(* ---- kernel facts ------------------------------------------------------------------ *)
+(* textbook weighted squared distance sum_k (ib_k (x_k - y_k))^2 *)
+Fixpoint wsd (ib x y : rvec) : R :=
+  match ib, x, y with
+  | b :: ib', a :: x', c :: y' => (b * (a - c)) * (b * (a - c)) + wsd ib' x' y'
+  | _, _, _ => 0
+  end.
+Fixpoint sqeuclid (x y : rvec) : R :=
+  match x, y with
+  | a :: x', c :: y' => (a - c) * (a - c) + sqeuclid x' y'
+  | _, _ => 0
+  end.
+(* the expression SquaredDistance.forward evaluates before anp.abs *)
+Definition sqdist_raw (ib x y : rvec) : R :=
+  (0 - (1 + 1)) * dotR (vmul NumR x ib) (vmul NumR y ib) + dotR (vmul NumR x ib) (vmul NumR x ib)
+  + dotR (vmul NumR y ib) (vmul NumR y ib).
+
+Lemma sqdist_unfold (ib x y : rvec) : sqdist NumR ib x y = Rabs (sqdist_raw ib x y).
+Proof. reflexivity. Qed.
+
+Lemma wsd_nonneg ib : forall x y, 0 <= wsd ib x y.
+Proof.
+  induction ib as [|b ib IH]; intros [|a x] [|c y]; cbn [wsd]; try lra.
+  specialize (IH x y). pose proof (Rle_0_sqr (b * (a - c))) as Hs. unfold Rsqr in Hs. lra.
+Qed.
+
+Lemma sqdist_raw_wsd (x : rvec) : forall ib y, length x = length y -> sqdist_raw ib x y = wsd ib x y.
+Proof.
+  unfold sqdist_raw.
+  induction x as [|a x IH]; intros ib [|c y] Hl; simpl in Hl; try discriminate.
+  - destruct ib; simpl; lra.
+  - destruct ib as [|b ib].
+    + simpl. lra.
+    + injection Hl as Hl. specialize (IH ib y Hl). cbn [wsd]. rewrite <- IH.
+      unfold vmul. cbn [map2 dot mul add NumR]. gdots. ring.
+Qed.
+
+Lemma sqdist_textbook (ib x y : rvec) : length x = length y -> sqdist NumR ib x y = wsd ib x y.
+Proof.
+  intros Hl. rewrite sqdist_unfold, sqdist_raw_wsd by exact Hl. apply Rabs_pos_eq. apply wsd_nonneg.
+Qed.
+
+Lemma sqdist_sym (ib x y : rvec) : sqdist NumR ib x y = sqdist NumR ib y x.
+Proof.
+  rewrite !sqdist_unfold. f_equal. unfold sqdist_raw.
+  rewrite (dot_comm (vmul NumR x ib) (vmul NumR y ib)). gdots. ring.
+Qed.
+
+Lemma matern52_sym (ib : rvec) (cs jit : R) (x y : rvec) : matern52 NumR ib cs jit x y = matern52 NumR ib cs jit y x.
+Proof. unfold matern52. rewrite (sqdist_sym ib x y). reflexivity. Qed.
+
+Lemma sqdist_self (ib x : rvec) : sqdist NumR ib x x = 0.
+Proof.
+  rewrite sqdist_unfold. unfold sqdist_raw.
+  replace (_ + _ + _) with 0 by (gdots; ring). apply Rabs_R0.
+Qed.
+
+Lemma matern52_self (ib : rvec) (cs jit : R) (x : rvec) :
+  matern52 NumR ib cs jit x x = (1 + sqrt jit) * exp (- sqrt jit) * cs.
+Proof.
+  unfold matern52. rewrite sqdist_self. unfold five, three, two. cbn [add sub mul div one zero nsqrt nexp NumR].
+  tR. rewrite Rmult_0_r, Rplus_0_l. unfold Rdiv. rewrite Rmult_0_l, Rplus_0_r, Rminus_0_l. reflexivity.
+Qed.
+
+Lemma matern52_self_nojitter (ib : rvec) (cs : R) (x : rvec) : matern52 NumR ib cs 0 x x = cs.
+Proof. rewrite matern52_self, sqrt_0, Ropp_0, exp_0. tR. lra. Qed.
+
+Lemma matern52_diagonal_nth (cs : R) (X : list rvec) i : (i < length X)%nat ->
+  nth i (matern52_diagonal NumR cs X) 0 = cs.
+Proof.
+  intros Hi. unfold matern52_diagonal. rewrite (map_nth_lt _ X i [] 0) by exact Hi.
+  cbn [mul one NumR]. tR. lra.
+Qed.
+
+Lemma wsd_repeat b : forall d x y, length x = d -> length y = d ->
+  wsd (repeat b d) x y = b * b * sqeuclid x y.
+Proof.
+  induction d as [|d IH]; intros [|a x] [|c y] Hx Hy; simpl in *; try discriminate; try ring.
+  rewrite IH by lia. ring.
+Qed.
+
+Lemma ard_isotropic (b : R) d (x y : rvec) (cs jit : R) : length x = d -> length y = d ->
+  ib_vector NumR true d (repeat b d) = ib_vector NumR false d [b] /\
+  sqdist NumR (repeat b d) x y = b * b * sqeuclid x y /\
+  matern52 NumR (ib_vector NumR true d (repeat b d)) cs jit x y =
+  matern52 NumR (ib_vector NumR false d [b]) cs jit x y.
+Proof.
+  intros Hx Hy. split; [reflexivity|]. split; [|reflexivity].
+  rewrite sqdist_textbook by congruence. apply wsd_repeat; assumption.
+Qed.
+
+(* ---- the dense system is always solvable (A = L L^T, L invertible), hence any two
+        posterior states of the same system predict the same ----------------------- *)
+Lemma lt_from_tl (L : rmat) : forall k, lt_from (S k) L -> lt_from k (map (@tl R) L).
+Proof.
+  induction L as [|row L IH]; intros k H; [exact I|].
+  destruct H as [Hd [Hz Hr]]. cbn [map lt_from].
+  destruct row as [|h t]; [simpl in Hd; congruence|].
+  split; [exact Hd|]. split; [exact Hz|]. apply IH. exact Hr.
+Qed.
+
+Lemma tmv_cols (L : rmat) : forall (x : rvec) (a : R) (w : rvec),
+  Forall (fun r => r <> []) L -> length x = length L ->
+  vaddx (a :: w) (tmv L x) = (a + dotR (map (hd 0) L) x) :: vaddx w (tmv (map (@tl R) L) x).
+Proof.
+  induction L as [|r L IH]; intros x a w Hne Hl.
+  - destruct x; [|discriminate]. simpl. destruct w; f_equal; lra.
+  - destruct x as [|b x]; [discriminate|]. injection Hl as Hl.
+    inversion Hne as [|? ? Hr Hrest]; subst. destruct r as [|h t]; [congruence|].
+    cbn [tmv map hd tl]. change (vscale b (h :: t)) with (b * h :: vscale b t).
+    rewrite (IH x (b * h) (vscale b t) Hrest Hl).
+    cbn [vaddx]. rewrite dot_cons. f_equal. gdots; ring.
+Qed.
+
+Lemma vaddx_zeros_l (z : rvec) : Forall (fun t => t = 0) z -> forall p : rvec,
+  (length z <= length p)%nat -> vaddx z p = p.
+Proof.
+  induction 1 as [|t z Ht _ IH]; intros p Hl; [destruct p; reflexivity|].
+  destruct p as [|y p]; simpl in Hl; [lia|]. simpl. rewrite IH by lia. subst t. f_equal. lra.
+Qed.
+
+Lemma vscale_zeros c (z : rvec) : Forall (fun t => t = 0) z -> Forall (fun t => t = 0) (vscale c z).
+Proof. induction 1 as [|t z Ht _ IH]; simpl; constructor; [subst; lra | exact IH]. Qed.
+
+Lemma tmv_surj (n : nat) : forall (L : rmat) (p : rvec),
+  length L = n -> lt_from 0 L -> Forall (fun r => length r = n) L -> length p = n ->
+  exists x : rvec, length x = n /\ tmv L x = p.
+Proof.
+  induction n as [|n IH]; intros L p HL Hlt Hsq Hp.
+  - destruct L; [|discriminate]. destruct p; [|discriminate]. exists []. split; reflexivity.
+  - destruct L as [|row L']; [discriminate|]. injection HL as HL.
+    destruct p as [|p0 p']; [discriminate|]. injection Hp as Hp.
+    destruct Hlt as [Hd [Hz Hr]]. inversion Hsq as [|? ? Hrow Hrest]; subst.
+    destruct row as [|d z]; [simpl in Hd; congruence|]. simpl in Hd, Hz, Hrow. injection Hrow as Hrow.
+    assert (Hne : Forall (fun r : rvec => r <> []) L').
+    { apply Forall_forall. intros r Hr'. rewrite Forall_forall in Hrest. specialize (Hrest r Hr').
+      destruct r; [discriminate | congruence]. }
+    destruct (IH (map (@tl R) L') p') as [x' [Hx' Ht']].
+    + rewrite map_length. reflexivity.
+    + apply lt_from_tl. exact Hr.
+    + apply Forall_forall. intros r Hr'. apply in_map_iff in Hr' as [r0 [E Hin]]. subst r.
+      rewrite Forall_forall in Hrest. specialize (Hrest r0 Hin). destruct r0; [discriminate|].
+      simpl in *. lia.
+    + exact Hp.
+    + exists ((p0 - dotR (map (hd 0) L') x') / d :: x'). split; [simpl; lia|].
+      cbn [tmv]. set (x0 := (p0 - dotR (map (hd 0) L') x') / d).
+      change (vscale x0 (d :: z)) with (x0 * d :: vscale x0 z).
+      rewrite tmv_cols by (try assumption; lia). rewrite Ht'. unfold x0.
+      f_equal.
+      * gdots. field. exact Hd.
+      * apply vaddx_zeros_l; [apply vscale_zeros; exact Hz|]. unfold vscale. rewrite map_length. lia.
+Qed.
+
+Lemma gram_solvable (L : rmat) (r : rvec) :
+  LowerTri L -> Square L -> length r = length L ->
+  exists alpha : rvec, length alpha = length L /\ mvR (gramR L) alpha = r.
+Proof.
+  intros Hlt Hsq Hr.
+  destruct (tmv_surj (length L) L (fsubstR L r)) as [x [Hx Ht]].
+  - reflexivity.
+  - apply LowerTri_lt_from. exact Hlt.
+  - exact Hsq.
+  - apply fsubst_length; assumption.
+  - exists x. split; [exact Hx|]. rewrite mv_gram, Ht. apply fsubst_solves; assumption.
+Qed.
+
+Lemma gram_length (L : rmat) : length (gramR L) = length L.
+Proof. unfold gram. apply map_length. Qed.
+
+Lemma mv_length (M : rmat) (v : rvec) : length (mvR M v) = length M.
+Proof. unfold mv. apply map_length. Qed.
+
+(* two posterior states (e.g. updated incrementally / recomputed from scratch) of the same
+   system (same A = K + sigsq I, same right-hand sides) give the same predictions *)
+Lemma same_system_same_predictions (L1 L2 A : rmat) (P1 P2 Rcols kcols : list rvec) (mstar kdiag : rvec) (floor : R) :
+  StateOK L1 A P1 Rcols -> StateOK L2 A P2 Rcols ->
+  forall t, (t < length kcols)%nat -> length (nth t kcols []) = length L1 ->
+    ((t < length kdiag)%nat ->
+       nth t (predict_vars NumR L1 kcols kdiag floor) 0 = nth t (predict_vars NumR L2 kcols kdiag floor) 0) /\
+    forall j, (t < length mstar)%nat -> (j < length Rcols)%nat ->
+      mean_entry (predict_means NumR L1 P1 kcols mstar) t j =
+      mean_entry (predict_means NumR L2 P2 kcols mstar) t j.
+Proof.
+  intros S1 S2 t Ht Hk.
+  pose proof S1 as [Hlt1 [Hsq1 [HA1 [HlP1 HP1]]]]. pose proof S2 as [Hlt2 [Hsq2 [HA2 [HlP2 HP2]]]].
+  assert (Hlen : length L2 = length L1).
+  { rewrite <- (gram_length L1), <- (gram_length L2), HA1, HA2. reflexivity. }
+  split.
+  - intros Hd.
+    destruct (gram_solvable L1 (nth t kcols []) Hlt1 Hsq1 Hk) as [beta [Hb Hbeta]].
+    rewrite HA1 in Hbeta.
+    destruct (var_dense L1 A kcols kdiag floor Hlt1 Hsq1 HA1 t beta Ht Hd Hk Hb Hbeta) as [_ E1].
+    destruct (var_dense L2 A kcols kdiag floor Hlt2 Hsq2 HA2 t beta Ht Hd) as [_ E2]; try congruence.
+  - intros j Hm Hj.
+    destruct (HP1 j Hj) as [Hl1 Hm1].
+    assert (Hr : length (nth j Rcols []) = length L1) by (rewrite <- Hm1; apply mv_length).
+    destruct (gram_solvable L1 (nth j Rcols []) Hlt1 Hsq1 Hr) as [alpha [Ha Halpha]].
+    rewrite HA1 in Halpha.
+    rewrite (mean_dense L1 A P1 Rcols kcols mstar S1 t j alpha) by assumption.
+    rewrite (mean_dense L2 A P2 Rcols kcols mstar S2 t j alpha) by (try assumption; congruence).
+    reflexivity.
 Qed.
